@@ -278,7 +278,7 @@ func checkC19(c *Ctx, r *Report) {
 
 	for _, a := range [][2]string{{"internal/abmf", "HandleCCA"}, {"internal/rating", "HandleSUA"}} {
 		outer := c.fn(a[0], a[1])
-		for _, f := range outer.AnonFuncs {
+		for _, f := range returnedFuncs(outer) {
 			key := fnKey(f)
 			nsend := 0
 			eachInstr(f, func(_ *ssa.BasicBlock, _ int, ins ssa.Instruction) {
